@@ -35,4 +35,18 @@ CHECKS["C15"] = {
     "technique": "syntax-directed control dependence + structured path enumeration over ast; jinja2 parse tree for the slot",
 }
 
+CHECKS["C07"] = {
+    "text": "Decides the property as an effect/ownership statement over the whole package: every cell of state that survives a translation "
+            "(module-level mutables, names rebound under global, class attributes, mutable defaults, executor attributes) is inventoried; "
+            "every write to one (through local aliases and helper calls, all 300+ functions, not only those reachable from the entry points) "
+            "must be covered by executor.reset re-initialising it to a fresh value, or be on a two-line allow-list with reasons; both entry "
+            "points must reach reset() on every exit incl. exceptions; registries are not aliased or imported by value; visitor and cursor "
+            "are fresh per translation. Sound for the modelled heap (locals, attributes, subscripts, returns/mutates summaries); precision "
+            "limits are listed in the note.",
+    "note": "Assumes each query arrives as its own AST object and that objects created inside a translation die with it. Flow-insensitive, "
+            "field-insensitive points-to over names; aliasing through containers of containers or through func_adl/jinja2 internals is not "
+            "modelled. unique_var_index is allowed to survive (numbering is factored out by the property).",
+    "technique": "inter-procedural effect analysis (points-to fixpoint + returns/mutates summaries) with reset-coverage and exit-path rules",
+}
+
 NOT_APPLICABLE = {}
